@@ -1,8 +1,180 @@
 import JrsVerif.Common.J
+import JrsVerif.Model.Cli
 
 namespace JrsVerif.Drv.C15
-open Lean JrsVerif.J
+open Lean JrsVerif.J JrsVerif.Cli JrsVerif.Deps
 
-def handle (_op : String) (_j : Json) : Option Json := none
+def parseFlavour : String → Option Flavour
+  | "str" => some .str | "str-file" => some .strFile | "code" => some .code
+  | "code-file" => some .codeFile | _ => none
+
+def parseVarOpts (a : Array Json) : Option (List VarOpt) :=
+  a.toList.mapM (fun j => do
+    pure { fl := ← parseFlavour (← str? j "f"), name := ← str? j "n", payload := ← str? j "p" })
+
+def showKind : ArgKind → String
+  | .string => "String" | .importStr => "ImportStr" | .inlineCode => "InlineCode" | .import => "Import"
+
+def showSetting (n : String) : Option Setting → Json
+  | none => .arr #[.str n, .str "unset", .str ""]
+  | some (k, p) => .arr #[.str n, .str (showKind k), .str p]
+
+def parseFmtName : String → Option FmtName
+  | "string" => some .string | "json" => some .json | "yaml" => some .yaml | "toml" => some .toml
+  | "xml-jsonml" => some .xmlJsonml | "ini" => some .ini | _ => none
+
+def parseManifestOpts (j : Json) : Option ManifestOpts := do
+  let f ← match j.getObjVal? "f" with
+    | .ok .null => some none
+    | .ok (.str s) => (parseFmtName s).map some
+    | _ => none
+  pure { format := f, string := ← bool? j "S", yamlStream := ← bool? j "y", linePadding := optNat j "pad" }
+
+def showFmt : Fmt → String
+  | .stringFmt => "string" | .toStringFmt => "tostring" | .json p => s!"json:{p}" | .yaml p => s!"yaml:{p}"
+  | .toml p => s!"toml:{p}" | .xml => "xml" | .ini => "ini" | .yamlStream i => s!"stream({showFmt i})"
+
+def fmtAnswer (o : ManifestOpts) : String :=
+  if o.accepted then showFmt (manifestFormat o) else "reject"
+
+def bytesOf (j : Json) : Bytes :=
+  match j with
+  | .arr a => nats a
+  | _ => []
+
+def parseFieldRes (a : Array Json) : Option (String × FieldRes) := do
+  let n ← (a[0]?).bind (fun x => x.getStr?.toOption)
+  let k ← (a[1]?).bind (fun x => x.getStr?.toOption)
+  let t := ((a[2]?).bind (fun x => x.getStr?.toOption)).getD ""
+  match k with
+  | "evalErr" => some (n, .evalErr)
+  | "manErr" => some (n, .manErr)
+  | "ok" => some (n, .ok t)
+  | _ => none
+
+def parseOutcome (j : Json) : Option Outcome := do
+  match ← str? j "k" with
+  | "err" => some .err
+  | "manErr" => some .manErr
+  | "text" => some (.text (← str? j "t"))
+  | "fields" =>
+    let fs ← arr? j "fs"
+    let l ← fs.toList.mapM (fun x => match x with | .arr a => parseFieldRes a | _ => none)
+    some (.fields l)
+  | _ => none
+
+def parseMode (j : Json) : Option Mode := do
+  match ← str? j "k" with
+  | "stdout" => some .stdout
+  | "file" => some (.file (← str? j "p"))
+  | "multi" => some (.multi (← str? j "p"))
+  | _ => none
+
+def renderedJson (r : Rendered) : Json :=
+  obj [("stdout", .str r.stdout), ("stderr", .bool r.stderr), ("exit", toJson r.exit),
+       ("files", .arr (r.files.map (fun (p, c) => Json.arr #[.str p, .str c])).toArray)]
+
+def sortNats (l : List Nat) : List Nat := l.mergeSort (fun a b => a ≤ b)
+
+def parseGraph (a : Array Json) : Graph := fun n =>
+  match a[n]? with
+  | some (.arr es) =>
+    some (es.toList.map (fun e =>
+      match e with
+      | .arr p =>
+        { code := (p[0]?.bind (fun x => x.getBool?.toOption)).getD false,
+          tgt := p[1]?.bind (fun x => x.getNat?.toOption) }
+      | _ => { code := false, tgt := none }))
+  | _ => none
+
+def subset (a b : List Nat) : Bool := a.all (fun x => b.contains x)
+
+def handle (op : String) (j : Json) : Option Json :=
+  match op with
+  | "cli.plumb" =>
+    match (do
+      let ext ← parseVarOpts (← arr? j "ext")
+      let tla ← parseVarOpts (← arr? j "tla")
+      let names := strs (← arr? j "names")
+      let jpath := strs (← arr? j "jpath")
+      let env := strs (← arr? j "env")
+      let fmt ← parseManifestOpts (← val? j "fmt")
+      let stack := (optNat j "stack").getD 512
+      pure (ext, tla, names, jpath, env, fmt, stack)) with
+    | none => some (bad "cli.plumb: parse")
+    | some (ext, tla, names, jpath, env, fmt, stack) =>
+      let rest : List (String × Json) :=
+        [("paths", ofStrs (cliPaths jpath env).eraseDups),
+         ("capi_paths", ofStrs (capiPaths jpath).eraseDups),
+         ("fmt", .str (fmtAnswer fmt)), ("stack", toJson stack)]
+      let m := obj ([("ext", .arr (names.map (fun n => showSetting n (lookup (plumbVars ext) n))).toArray),
+                    ("tla", .arr (names.map (fun n => showSetting n (lookup (plumbVars tla) n))).toArray)] ++ rest)
+      let s := obj ([("ext", .arr (names.map (fun n => showSetting n (specLookup ext n))).toArray),
+                    ("tla", .arr (names.map (fun n => showSetting n (specLookup tla n))).toArray)] ++ rest)
+      some (obj [("model", m), ("spec", s)])
+  | "cli.render" =>
+    match (do
+      let mode ← parseMode (← val? j "mode")
+      let fmt ← parseManifestOpts (← val? j "fmt")
+      let out ← parseOutcome (← val? j "out")
+      pure (mode, fmt, out)) with
+    | none => some (bad "cli.render: parse")
+    | some (mode, fmt, out) =>
+      if !fmt.accepted then some (obj [("model", obj [("reject", .bool true)]), ("spec", obj [("reject", .bool true)])])
+      else
+        let r := renderedJson (render mode (manifestFormat fmt).trailingNewline out)
+        some (obj [("model", r), ("spec", r)])
+  | "capi.frame" =>
+    match (do
+      let mode ← str? j "mode"
+      let out ← val? j "out"
+      pure (mode, out)) with
+    | none => some (bad "capi.frame: parse")
+    | some (mode, out) =>
+      if (bool? out "err").getD false then
+        let r := obj [("err", toJson (1 : Nat))]
+        some (obj [("model", r), ("spec", r)])
+      else
+        let raw : Option Bytes :=
+          match mode with
+          | "plain" => (val? out "text").map (fun t => cstring (bytesOf t))
+          | "multi" => (arr? out "kvs").map (fun a =>
+              let kvs := a.toList.map (fun kv => match kv with
+                | .arr p => (bytesOf (p[0]?.getD .null), bytesOf (p[1]?.getD .null))
+                | _ => ([], []))
+              let raw := multiToRaw kvs
+              raw.take (scanMulti (segs raw [])))
+          | "stream" => (arr? out "vs").map (fun a =>
+              let raw := streamToRaw (a.toList.map bytesOf)
+              raw.take (scanStream (segs raw [])))
+          | _ => none
+        match raw with
+        | none => some (bad "capi.frame: out")
+        | some raw =>
+          let r := obj [("err", toJson (0 : Nat)), ("raw", ofNats raw)]
+          some (obj [("model", r), ("spec", r)])
+  | "deps.run" =>
+    match (do
+      let g ← arr? j "g"
+      let root ← nat? j "root"
+      pure (g, root)) with
+    | none => some (bad "deps.run: parse")
+    | some (ga, root) =>
+      let g := parseGraph ga
+      let n := ga.size
+      let loaded := (arr? j "loaded").map nats
+      let loadedOk (deps : List Nat) : List (String × Json) :=
+        match loaded with
+        | none => []
+        | some l => [("loaded_ok", .bool (subset l (root :: deps)))]
+      let m := match collect g (n + 1) root with
+        | .ok deps _ => obj ([("res", .str "ok"), ("deps", ofNats (sortNats deps))] ++ loadedOk deps)
+        | .bad => obj [("res", .str "err")]
+        | .fuel => obj [("res", .str "fuel")]
+      let s := match specCollect g (n + 1) root with
+        | some deps => obj ([("res", .str "ok"), ("deps", ofNats (sortNats deps))] ++ loadedOk deps)
+        | none => obj [("res", .str "err")]
+      some (obj [("model", m), ("spec", s)])
+  | _ => none
 
 end JrsVerif.Drv.C15
